@@ -46,6 +46,12 @@ def gen_cases(tier, seed):
     else:
         rng = np.random.default_rng([seed, 4])
         chosen = [universe[i] for i in rng.choice(len(universe), size=150, replace=False)]
+        # stratum: compounds with three or more atoms per primitive cell (several sublattices: the prototype cell is
+        # assembled from more than one basis-atom graph and regions may have to be merged)
+        have = {c["key"] for c in chosen}
+        multi = [c for c in universe if c["key"] not in have and
+                 slabs.COMPOUNDS.get(c["material"], ("",))[0] in ("perovskite", "rutile", "fluorite", "antifluorite", "wurtzite")]
+        chosen += [multi[i] for i in rng.choice(len(multi), size=min(70, len(multi)), replace=False)]
         mono = [c for c in universe if c["kind"] == "monolayer"]
         chosen += [mono[i] for i in rng.choice(len(mono), size=8, replace=False)]
         listed = {f["key"].split("|", 1)[1] for f in hmain.load_known(ID) if f["key"].startswith("C04|")}
